@@ -271,3 +271,27 @@ CHECKS["C03"] = dict(
     assumptions=["AddFirst(a, b) adds one at a time, so the result is [b, a, ...]: the model encodes the order these operations define on this codebase",
                  "actions nest at most three levels deep on both sides"],
 )
+
+CHECKS["C07"] = dict(
+    test="TestC07", level="fault_enumeration", death_is_violation=True,
+    quick=dict(shards=8, checks=8000, timeout=300),
+    thorough=dict(shards=16, checks=300000, timeout=3000, shrinktime="120s"),
+    rule="(1) enumeration: for pipelines of at most three handlers every combination of entry point (Channel.Write, ctx.Write, "
+         "Channel.Trigger, ctx.Trigger, read loop, activation) x panic value kind (error, string, runtime error, timeout net.Error, "
+         "non-timeout net.Error, wrapped net.Error) x exception-handler shape (absent, forwarding, swallowing; before or after the "
+         "panicking handler) x passive handler in between x sync/queued channel, each followed by a harmless Trigger and read to show the "
+         "channel stays usable (720 cases, run by shard 0); (2) rapid-generated pipelines of up to 5 handler instances (arbitrary "
+         "interface subsets, forward/stop, nested ctx.Write/ctx.Trigger/Channel.Write/Channel.Trigger actions) with 1-2 panic sites, "
+         "exception handlers absent/forwarding/swallowing (never panicking), 1-6 events over the five entry points, optionally a failing "
+         "transport Read (plain/timeout/net.Error), an explicit Close followed by more events (closed state: containment only), and "
+         "injected Write/Writev/Flush failures of the sync path or the sender. Oracle: no panic escapes into the caller, the process "
+         "survives (a crash is reported with the case written beforehand), and the real trace equals the pipeline model's: exception "
+         "delivered once per exception handler in order up to the first that stops, with the panic value's identity, close with that "
+         "exception if unconsumed, failure errors carried by inactive. Non-trivial = a panic site or transport fault actually fired.",
+    required=["fault-fired:chwrite", "fault-fired:chtrigger", "fault-fired:readloop", "fault-fired:ctxwrite", "fault-fired:ctxtrigger",
+              "value:error", "value:string", "value:runtime", "value:timeout", "value:neterr", "value:wrapped-neterr", "site:active", "site:read",
+              "site:write", "site:event", "channel:sync", "channel:queued", "transport-fault-fired", "read-failure:", "state:closed"],
+    assumptions=["exception and inactive handlers never panic (the property's proviso)",
+                 "a non-timeout net.Error consumed by a handler after being raised through a channel entry point also closes the channel today; the property is silent, both outcomes are accepted from that point on",
+                 "a read failure that a handler swallows for ever is outside the statement; the harness closes the channel itself"],
+)
